@@ -734,7 +734,12 @@ class DoIPConnection:
         payload = AliveCheckResponse(
             SourceAddress=self.src_addr,
         )
-        await self.write_request_raw(hdr, payload)
+        # Do not take self._mutex here: it is held by a writer waiting for its ACK
+        # and by a reader waiting on the read queue, both of which are only fed by
+        # the read worker that is calling us.  A single write() call is atomic.
+        self.writer.write(hdr.pack() + payload.pack())
+        await self.writer.drain()
+        logger.trace("Sent DoIP message: hdr: %s, payload: %s", hdr, payload)
 
     async def close(self) -> None:
         logger.debug("Closing DoIP connection...")
